@@ -143,17 +143,20 @@ def run_case_task(task):
             used |= res.used_specs
             inl |= res.inlined
             # try all goals at once first
-            goals = [(n, g) for n, g in res.goals if only is None or any(_fn.fnmatchcase(n, p) for p in only)]
+            goals = [it for it in res.goals if only is None or any(_fn.fnmatchcase(it[0], p) for p in only)]
             pending = []
             seen_goals = {}
-            for n, g in goals:
+            for it in goals:
+                n, g = it[0], it[1]
+                own_asm = it[2] if len(it) > 2 else None
                 gk = g.get_id() if hasattr(g, 'get_id') else repr(g)
-                if gk in seen_goals:
+                if gk in seen_goals and own_asm is None:
                     st, model, dt, be = seen_goals[gk]      # same formula under the same assumptions (aliased entries)
                     dt = 0.0
                 else:
-                    st, model, dt, be = verify.smt_check(res.assumptions, g)
-                    seen_goals[gk] = (st, model, dt, be)
+                    st, model, dt, be = verify.smt_check(own_asm if own_asm is not None else res.assumptions, g)
+                    if own_asm is None:
+                        seen_goals[gk] = (st, model, dt, be)
                 out['solver_s'] += dt
                 rec = per_name.setdefault(n, ['proved', set(), 0.0, 0])
                 rec[1].add(be)
